@@ -1,16 +1,17 @@
-# C08 violation 2: nstr of a number with |x| > 2^3500 (or < 2^-3500) and a mantissa of > ~14300 bits raises ValueError
 import sys, os; sys.path.insert(0, os.getcwd())
-from mpmath import mp, mpf, nstr
-mp.dps = 5000
-bad = 0
-cases = [(mpf(10)**1100 / 3, '3.33333e+1099'),     # 16613-bit mantissa, exponent +1099
-         (mpf(10)**-1100 / 3, '3.33333e-1101'),
-         (mpf((2**15000 + 1, -10000)), '1.41247e+1505')]  # (2^15000+1)*2^-10000 = 1.412467032...e1505 exactly computed with ints
-for x, want in cases:
-    try:
-        got = nstr(x, 6)
-    except Exception as e:
-        got = 'raised %s: %s' % (type(e).__name__, str(e)[:70])
-    print('man bits=%d exp=%d  nstr(x, 6): observed %s | expected %r' % (x.bc, x.exp, got, want))
-    if got != want: bad = 1
-sys.exit(bad)
+# repr of an mpf that carries more mantissa bits than the context precision
+# prints only repr_dps(prec) digits: evaluating it gives neither x nor even x
+# rounded to nearest at that precision.
+from mpmath import mp, mpf
+from mpmath.libmp import from_man_exp
+mp.prec = 53
+man, exp = 13533527774777315898176868032729967045235441665, -23   # 154-bit mantissa
+x = mp.make_mpf(from_man_exp(man, exp))
+r = repr(x)
+y = eval(r)
+print("prec 53, x = %d * 2**%d" % (man, exp))
+print("repr(x)            =", r)
+print("eval(repr(x)) == x :", y == x, "   (expected True by the statement)")
+print("eval(repr(x))      =", y._mpf_)
+print("x rounded (+x)     =", (+x)._mpf_, " -> even the rounded value is missed:", y != +x)
+sys.exit(1 if y != x else 0)
